@@ -1,6 +1,6 @@
-"""Triage helper (not a registered check): dumps every failing execution of C18's generated spaces with its full detail.
-usage: PYTHONHASHSEED=0 /venv/bin/python tools/c18_triage.py [k] > /tmp/triage.jsonl"""
-import json, os, sys, multiprocessing as mp
+"""Triage helper (not a registered check): every failing execution of C18's generated spaces, grouped.
+usage: PYTHONHASHSEED=0 /venv/bin/python tools/c18_triage.py <k> <generator indices, comma separated | lc> [--full]"""
+import json, os, re, sys, multiprocessing as mp
 sys.path.insert(0, os.path.dirname(os.path.dirname(os.path.abspath(__file__))))
 sys.path.insert(0, os.environ.get('VERIF_REPO', '/repo'))
 from mcx import core
@@ -11,46 +11,85 @@ K = int(sys.argv[1]) if len(sys.argv) > 1 else 1
 
 def dfs(prefix):
     out = []
+    n = 0
     stack = [tuple(prefix)]
     while stack:
         p = stack.pop()
         ch = core.Chooser(p)
         case = g.run_generated(ch)
+        n += 1
         tr = ch.trace
         if case.fails:
             out.append({'labels': list(ch.labels), 'choices': ch.choices(), 'fails': [(f[0], f[2]) for f in case.fails], 'outcome': case.outcome})
         cost = sum(1 for t in tr[:len(p)] if t[3] and t[2])
         for i in range(len(tr) - 1, len(p) - 1, -1):
-            name, n, c, costed = tr[i]
-            if n < 2 or (costed and cost + 1 > K):
+            name, nn, c, costed = tr[i]
+            if nn < 2 or (costed and cost + 1 > K):
                 continue
             head = tuple(t[2] for t in tr[:i])
-            for alt in range(n - 1, 0, -1):
+            for alt in range(nn - 1, 0, -1):
                 stack.append(head + (alt,))
-    return out
+    return n, out
 
 
 def lc(part):
     out = []
+    n = 0
     for i, item in enumerate(g._lc_gen('quick')()):
         if i % 64 != part:
             continue
         fails, matched, sts, data, outside = g._lc_check(item)
+        n += 1
         if fails:
             out.append({'labels': [json.dumps(item)], 'fails': [(f[0], f[2]) for f in fails], 'outcome': sts})
-    return out
+    return n, out
+
+
+def norm(s):
+    s = re.sub(r'0x[0-9a-f]+|\b[0-9a-f]{4,}\b|\d+', 'N', s.lower())
+    return s[:160]
 
 
 if __name__ == '__main__':
-    roots = []
-    for gi in range(11):
-        ch = core.Chooser((gi,))
-        g.run_generated(ch)
-        # split on the generator's first two choice points
-        n1 = ch.trace[1][1] if len(ch.trace) > 1 else 1
-        for a in range(n1):
-            roots.append((gi, a))
+    which = sys.argv[2] if len(sys.argv) > 2 else 'all'
+    res = []
+    total = 0
     with mp.get_context('fork').Pool(16) as pool:
-        # roots (gi, a) overlap with (gi,) DFS: run DFS only below the second choice fixed (free or not)
-        res = pool.map(dfs_fixed := None or dfs, roots) if False else None
-    print('unused', file=sys.stderr)
+        if which == 'lc':
+            for n, r in pool.map(lc, range(64)):
+                total += n
+                res += r
+        else:
+            gens = range(11) if which == 'all' else [int(x) for x in which.split(',')]
+            roots = []
+            for gi in gens:
+                ch = core.Chooser((gi,))
+                g.run_generated(ch)
+                tr = ch.trace
+                # fix the generator's first two choice points (free ones): 4 roots per generator when they are class x order
+                n1 = tr[1][1] if len(tr) > 1 and not tr[1][3] else 1
+                n2 = tr[2][1] if len(tr) > 2 and not tr[2][3] and n1 > 1 else 1
+                for a in range(n1):
+                    for b in range(n2):
+                        roots.append((gi, a, b) if n2 > 1 else ((gi, a) if n1 > 1 else (gi,)))
+            for n, r in pool.map(dfs, roots):
+                total += n
+                res += r
+    groups = {}
+    for r in res:
+        for path, detail in r['fails']:
+            key = (path, norm(detail.split('\n', 1)[-1] if detail.startswith('Mismatch on line') else detail))
+            groups.setdefault(key, []).append(r)
+    print('executions', total, 'failing', len(res), 'groups', len(groups))
+    for (path, nd), rs in sorted(groups.items(), key=lambda kv: -len(kv[1])):
+        print('-' * 100)
+        print('%4d x  %s' % (len(rs), path))
+        labs = {}
+        for r in rs:
+            for l in r['labels']:
+                if not l.startswith('generator='):
+                    labs[l] = labs.get(l, 0) + 1
+        common = [l for l, c in labs.items() if c == len(rs)]
+        print('   common labels:', common, '| e.g.', rs[0]['labels'][:6])
+        d = [f[1] for f in rs[0]['fails'] if f[0] == path][0]
+        print('   ' + d[:(2000 if '--full' in sys.argv else 420)].replace('\n', '\n   '))
